@@ -107,6 +107,7 @@ InitState(T) ==
    shOn    |-> FALSE, shBase |-> [box |-> <<>>, en |-> <<>>], shN |-> 0,
    probe   |-> <<>>, pst |-> -1,
    hasInc  |-> FALSE, inc |-> <<>>,
+   over    |-> FALSE,      \* the search stands above the configured height: the only legal next step is the error
    dead    |-> FALSE]      \* the current frame was refuted by the last pass
 
 Cur(s) == s.frames[Len(s.frames)]
@@ -212,13 +213,14 @@ Branch(T, s, e) ==
         <<"C09:announces-alternative", \A k \in 1..(L - 1) : e.upd[k][1] = e.dom /\ Covers(e.upd[k][2], Moved(old, rng[k]))>>,
         <<"C07:levels-enabled-sound", \A k \in 1..L : \A q \in 1..NProp(P) :
                                          (~e.ens[k][q] /\ cur.en[q]) => EntailedOn(P, P.props[q], e.levels[k])>>,
-        <<"C19:fits",                e.top2 + 1 <= T.cfg.height>>
+        <<"C19:beyond-spare-levels", e.top2 + 1 <= T.cfg.height + 2>>
       >>)
       newf == SubSeq(s.frames, 1, n - 1) \o [k \in 1..L |-> [box |-> e.levels[k], en |-> e.ens[k]]]
       cnt1 == IF e.d = 0 THEN [Inc(s.cnt, CH) EXCEPT ![DEPTH] = IF e.top2 > @ THEN e.top2 ELSE @]
               ELSE Inc(s.cnt, SHNB)
   IN << [s EXCEPT !.frames = newf, !.cnt = cnt1, !.lvls = IF e.d = 0 THEN @ + (L - 1) ELSE @,
-                  !.probe = cur.box, !.pst = -1, !.dead = FALSE], bad >>
+                  !.probe = cur.box, !.pst = -1, !.dead = FALSE,
+                  !.over = okd /\ (e.top2 + 1 > T.cfg.height + (IF e.d = 1 THEN 1 ELSE 0))], bad >>
 
 VarChoice(T, s, e) ==
   LET cur == Cur(s)
@@ -304,10 +306,13 @@ OptReturn(T, s, e) ==
         <<"C17:stats-exact",         e.stats = s.cnt>> >>)
   IN << s, bad >>
 
+IsCapacityError(e) == e.type = "IndexError" /\ Len(e.msg) >= 26 /\ SubSeq(e.msg, 1, 26) = "The stack of choice points"
 Raised(T, s, e) ==
-  << s, {IF e.type = "IndexError" THEN "C16:index-error" ELSE "C04:raised-" \o e.type} >>
+  IF IsCapacityError(e) THEN << s, {} >>      \* reporting a full stack is the behaviour C19 asks for
+  ELSE << s, {IF e.type = "IndexError" THEN "C16:index-error" ELSE "C04:raised-" \o e.type} >>
 
 Step(T, s, e) ==
+  IF s.over /\ ~(e.k = "X" /\ IsCapacityError(e)) THEN << [s EXCEPT !.over = FALSE], {"C19:continues-above-the-configured-height"} >> ELSE
   CASE e.k = "P" /\ e.alg = 0 -> PassBC(T, s, e)
     [] e.k = "P" /\ e.alg = 1 -> PassShaving(T, s, e)
     [] e.k = "S" -> ShaveStart(T, s, e)
